@@ -144,6 +144,18 @@ pub fn noncanonical_fens(rng: &mut StdRng, fen: &str) -> Vec<String> {
         v.push(format!("{} {} {} {} {} {} ", parts[0], parts[1], parts[2], parts[3], parts[4], parts[5]));
         v.push(format!("{} {} {} {} {} 65536", parts[0], parts[1], parts[2], parts[3], parts[4]));
     }
+    if parts.len() == 6 {
+        // the e.p. field: every file on both candidate ranks, for the given side and for the other side
+        for side in ["w", "b"] {
+            for f in "abcdefgh".chars() {
+                for r in ['3', '6', '4', '5'] {
+                    if rng.gen_bool(0.25) {
+                        v.push(format!("{} {} {} {}{} {} {}", parts[0], side, parts[2], f, r, parts[4], parts[5]));
+                    }
+                }
+            }
+        }
+    }
     for _ in 0..4 {
         v.push(mutate(rng, fen));
     }
@@ -207,14 +219,14 @@ pub fn san_variants(rng: &mut StdRng, b: &Board, base: &[String]) -> Vec<String>
             v.push(mutate(rng, t));
         }
     }
-    // every short pawn capture form
+    // every short pawn capture form: ALL ordered pairs of files (also non-adjacent ones, which can never
+    // denote a move)
     for a in 0..8usize {
-        for d in [-1i32, 1] {
-            let c = a as i32 + d;
-            if (0..8).contains(&c) {
-                let s = format!("{}{}", files.chars().nth(a).unwrap(), files.chars().nth(c as usize).unwrap());
+        for c in 0..8usize {
+            if a != c {
+                let s = format!("{}{}", files.chars().nth(a).unwrap(), files.chars().nth(c).unwrap());
                 v.push(s.clone());
-                if rng.gen_bool(0.2) {
+                if rng.gen_bool(0.15) {
                     v.push(format!("{s}=Q"));
                     v.push(format!("{s}N"));
                 }
